@@ -136,3 +136,9 @@ def check(run: Run) -> None:
             if not bad:
                 run.ok("C11.R3", fi, f"mutable default '{arg.arg}' is never mutated")
     run.floor("C11.R3", n_mut_defaults, 7, "parameters with mutable defaults")
+
+    # ---------------- R5: what an executor is handed is never the stream's own AST (an executor may normalise it in place)
+    run.rule("C11.R5", "the executor receives the private copy made by remove_empty_metadata(self._q_ast), on every path (C12.R3 re-evaluated)")
+    from ..report import run_stage
+
+    run_stage(run, "c12", only={"C12.R3"})
